@@ -231,6 +231,42 @@ def systematic_leaves(k0):
                            meta=dict(n=n + 1, nargs=1, nf=0, structnode=None, second=[], binds=[j + 1 for j in range(n) if bmask[j]], values=[]))
 
 
+def sync_fanin_leaves(k0):
+    """C05: input-free Async leaves next to a SYNCHRONOUS provider that takes sync input-free values and the value of ONE of
+    the Async leaves (so it has to wait for another goroutine), but not the others': wherever that provider and its wait are
+    emitted, the other Async leaves must already have been started."""
+    import itertools
+    out = []
+    k = k0
+    for nasync in (2, 3):
+        for rootperm in (0, 1):
+            for extra_val in (False, True):
+                P = "Z%d" % k
+                k += 1
+                A = ["*%sT%d" % (P, j + 1) for j in range(nasync)]          # async input-free leaves
+                V = "*%sT%d" % (P, nasync + 1)                               # sync input-free
+                W = "*%sT%d" % (P, nasync + 2)                               # sync input-free (optional)
+                D = "*%sT%d" % (P, nasync + 3)                               # sync fan-in: V (, W), A[-1]
+                dreq = [V] + ([W] if extra_val else []) + [A[-1]]
+                rootreq = ([D] + A[:-1]) if rootperm == 0 else (A[:-1] + [D])
+                provs = [dict(kind="fn", fn="New%sT0" % P, requires=rootreq, provides=[["*%sT0" % P]], fallible=True, node=0, bind=[], **{"async": False})]
+                for j in range(nasync):
+                    provs.append(dict(kind="fn", fn="New%sT%d" % (P, j + 1), requires=[], provides=[[A[j]]], fallible=False, node=j + 1, bind=[], **{"async": True}))
+                provs.append(dict(kind="fn", fn="New%sT%d" % (P, nasync + 1), requires=[], provides=[[V]], fallible=False, node=nasync + 1, bind=[], **{"async": False}))
+                if extra_val:
+                    provs.append(dict(kind="fn", fn="New%sT%d" % (P, nasync + 2), requires=[], provides=[[W]], fallible=False, node=nasync + 2, bind=[], **{"async": False}))
+                provs.append(dict(kind="fn", fn="New%sT%d" % (P, nasync + 3), requires=dreq, provides=[[D]], fallible=False, node=nasync + 3, bind=[], **{"async": False}))
+                for order in (0, 1):
+                    pl = provs if order == 0 else [provs[0]] + provs[1:][::-1]
+                    PP = P if order == 0 else P + "r"
+                    if order == 1:
+                        import json as _j
+                        pl = _j.loads(_j.dumps(pl).replace(P, PP))
+                    out.append(dict(name="Init" + PP, prefix=PP, ret="*%sT0" % PP, provs=pl, layout=list(range(len(pl))), kind="valid",
+                                    meta=dict(n=len(pl), nargs=0, nf=0, structnode=None, second=[], binds=[], values=[])))
+    return out
+
+
 def ctx_mid_decls(k0):
     """context.Context is an ordinary unsupplied dependency discovered between other injector arguments, and a needed
     provider is Async: ctx must be moved to the front without disturbing the other parameters (C10)."""
